@@ -61,8 +61,8 @@ def run(tier, seed):
     cov = {"states": len(cases), "transitions": evals, "traces_validated_against_impl": rep["evaluations"], "samples": samples + rep2["samples"][:1],
            "evaluations": evals, "distinct_nontrivial": rep["distinct"] + rep2["distinct"],
            "rule": f"canonical part: every sequence of <= {maxlen} entries over 21 entry shapes (singular / repeated varint, fixed32, bytes, nested and repeated "
-                   "nested messages incl. inner empty packed chunks, packed chunks of 0/1/2 elements, unknown field, wrong wire types); round trips: "
-                   f"{n} seeded values for each of 12 wire / storage types x {{prost encoding, shuffled field order}}; std conversions: {len(std_cases)} boundary "
+                   "nested messages incl. inner empty packed chunks, packed chunks of 0/1/2 elements, unknown field, wrong wire types) x 5 spellings (redundant continuation bytes on values / tags / length prefixes / all); round trips: "
+                   f"{n} seeded values for each of 12 wire / storage types x {{prost encoding, shuffled field order, randomly padded varints at every nesting level}}; std conversions: {len(std_cases)} boundary "
                    "classes of SocketAddr (incl. IPv4-mapped / -compatible IPv6, also inside a signed NetAddress whose signature must survive), Duration, Utc, BitVec, Rate",
            "std_classes": {"cases": len(std_cases), "outside_domain_or_unrepresentable": rep3["counters"].get("std_case_outside_the_property_domain", 0) + rep3["counters"].get("std_case_not_representable", 0)},
            "exhaustive": False,
